@@ -464,32 +464,34 @@ def euler_defs(m4, v3):
     b = body_of(m4, r"Vec3_<T> Matrix4_<T>::eulerAngles\(int a0, int a1, int a2\) const\s*\{", "Matrix4_::eulerAngles")
     m = must(r"T r0, r1, r2; const T lim = sizeof\(T\) == sizeof\(float\) \? T\([0-9.e-]+\) : T\([0-9.e-]+\); "
              r"if \(a0 != a2\) \{ T s = \(a1 - a0 \+ 3\) % 3 == 1 \? -1\.0f : 1\.0f; T c = (.*?); r1 = (.*?); "
-             r"if \((.*?)\) \{ r2 = (.*?); r0 = (.*?); \} else \{ r2 = (.*?); r0 = (.*?); \} "
+             r"r0 = \((.*?)\) \? (.*?) : T\(0\); Matrix4_ m = \*this \* rotate\(a2, -r0\); r2 = (.*?); "
              r"return Vec3_<T>\(r2, r1, r0\); \} "
              r"else \{ int k = 3 - a0 - a1; T s = \(a1 - a0 \+ 3\) % 3 == 2 \? -1\.0f : 1\.0f; T c = (.*?); r1 = (.*?); "
-             r"if \((.*?)\) \{ r2 = (.*?); r0 = (.*?); \} else \{ r2 = (.*?); r0 = (.*?); \} \} "
+             r"r0 = \((.*?)\) \? (.*?) : T\(0\); Matrix4_ m = \*this \* rotate\(a0, -r0\); r2 = (.*?); \} "
              r"return Vec3_<T>\(r2, r1, r0\);", b, "Matrix4_::eulerAngles")
     g = m.groups()
-    A = Env(mats={"at": "a"}, scalars={"s": "s", "c": "c", "lim": "lim", "PI": "T.pi"}, idx=("a0", "a1", "a2", "k"))
+    A = Env(mats={"at": "a", "m": "m"}, scalars={"s": "s", "c": "c", "lim": "lim", "PI": "T.pi"}, idx=("a0", "a1", "a2", "k"))
     ex = lambda x: emit(parse_expr(x), A)
     cd = lambda x: emit_cond(parse_cond(x), A)
     out.append(
         "/-- `Matrix4_<T>::eulerAngles(int a0, int a1, int a2)` for axis indices in {0,1,2}; `lim` is the gimbal-lock threshold on the\n"
-        "cosine (sine) `c` of the middle angle (`T(2e-6)` for float, `T(4e-15)` for double in the source) -/\n"
+        "cosine (sine) `c` of the middle angle (`T(2e-6)` for float, `T(4e-15)` for double in the source); `m` is\n"
+        "`*this * rotate(a2, -r0)` (the last rotation removed), from which the first angle is read -/\n"
         "def eulerAngles (F : Fld K) (C : Cmp K) (T : Trig K) (lim : K) (a : Nat → Nat → K) (a0 a1 a2 : Nat) : V3 K :=\n"
         "  if a0 ≠ a2 then\n"
         "    let s := if (a1 + 3 - a0) %% 3 = 1 then F.neg (F.lit 1) else F.lit 1\n"
         "    let c := %s\n    let r1 := %s\n"
-        "    if %s then\n      let r2 := %s\n      let r0 := %s\n      V3.mk r2 r1 r0\n"
-        "    else\n      let r2 := %s\n      let r0 := %s\n      V3.mk r2 r1 r0\n"
+        "    let r0 := if %s then %s else F.lit 0\n"
+        "    let m := mul F a (rotateAxis F T a2 (F.neg r0))\n"
+        "    let r2 := %s\n    V3.mk r2 r1 r0\n"
         "  else\n"
         "    let k := 3 - a0 - a1\n"
         "    let s := if (a1 + 3 - a0) %% 3 = 2 then F.neg (F.lit 1) else F.lit 1\n"
         "    let c := %s\n    let r1 := %s\n"
-        "    if %s then\n      let r2 := %s\n      let r0 := %s\n      V3.mk r2 r1 r0\n"
-        "    else\n      let r2 := %s\n      let r0 := %s\n      V3.mk r2 r1 r0\n"
-        % (ex(g[0]), ex(g[1]), cd(g[2]), ex(g[3]), ex(g[4]), ex(g[5]), ex(g[6]),
-           ex(g[7]), ex(g[8]), cd(g[9]), ex(g[10]), ex(g[11]), ex(g[12]), ex(g[13])))
+        "    let r0 := if %s then %s else F.lit 0\n"
+        "    let m := mul F a (rotateAxis F T a0 (F.neg r0))\n"
+        "    let r2 := %s\n    V3.mk r2 r1 r0\n"
+        % (ex(g[0]), ex(g[1]), cd(g[2]), ex(g[3]), ex(g[4]), ex(g[5]), ex(g[6]), cd(g[7]), ex(g[8]), ex(g[9])))
     # const char* wrappers: "XYZ" = moving axes, "XYZ*" = fixed axes (reversed order, reversed components)
     if not re.search(r"Vec3_<T> zyx\(\) const \{ return Vec3_<T>\(z, y, x\); \}", norm(v3)):
         raise TranslateError("Vec3_::zyx changed")
